@@ -80,6 +80,18 @@ def slow(widths):
     return max(widths) >= 16
 
 
+def not_nan(n):
+    """documented domain of the float -> normalised-integer pack functions (added for C20, which proves UB-freedom under the
+    REQUIRES of these value contracts): the argument is "the normalized floating-point value v" (glm/packing.hpp and
+    glm/gtc/packing.hpp, every pack{U,S}norm*: "First, converts each component of the normalized floating-point value v into
+    8- or 16-bit integer values"; templated form: "Convert each component of the normalized floating-point vector into unsigned
+    integer values") and the conversion is given as round(clamp(c, 0, +1) * 255.0) - a formula on numbers: clamp extends it to every
+    number outside [0, 1] and to +-Inf, but nothing in the doc comments or in the GLSL text they cite defines the packing of a NaN
+    (GLSL 4.20.8 section 4.5.1: "Operations and built-in functions that operate on a NaN are not required to return a NaN as the
+    result"), so a NaN component is outside the documented domain.  Every ensures below already exempted NaN components."""
+    return [('documented_no_component_is_nan', ' && '.join('!spec_isnan32(%s)' % XS[i] for i in range(n)))]
+
+
 def norm_format(kind, sfx, bits, widths, file, one):
     n = len(widths)
     offs = offsets(widths)
@@ -131,7 +143,7 @@ def norm_format(kind, sfx, bits, widths, file, one):
         pass
     else:
         # measured on an idle machine: 1x8 7 s, 2x8 17 s, small bit-field formats 5 s; 4x8 42 s, 3x10_1x2 96 s, 1x16 16 s (kissat)
-        C('glm_pack' + F, '%s  %s' % (pk, file), tier='quick' if (max(widths) <= 8 and bits <= 16) else 'thorough', ensures=ens, timeout=600,
+        C('glm_pack' + F, '%s  %s' % (pk, file), tier='quick' if (max(widths) <= 8 and bits <= 16) else 'thorough', requires=not_nan(n), ensures=ens, timeout=600,
           backends=HARD_BACKENDS if slow(widths) else FLOAT_BACKENDS)
     # ---- (c) relational layout against the one-component function
     if one:
@@ -140,7 +152,7 @@ def norm_format(kind, sfx, bits, widths, file, one):
         expr = ' | '.join('((u64)%s(%s) << %d)' % (onefn, XS[i], offs[i]) for i in range(n))
         d.shim('glm_pack%s_layout' % F, W, ins, 'return %s(%s);' % (pk, vecf(n)))
         C('glm_pack%s_layout' % F, '%s against %s%s%s  %s' % (pk, 'glm::pack', kind, one, file), tier='quick' if bits <= 16 else 'thorough',
-          uses=[onefn], timeout=600,
+          uses=[onefn], timeout=600, requires=not_nan(n),
           ensures=[('first_component_least_significant',
                     '%s || (u64)RESULT == (%s)' % (' || '.join('spec_isnan32(%s)' % XS[i] for i in range(n)), expr))])
     # ---- (a) repack
@@ -337,10 +349,10 @@ for tag, gt, ct, cb, n, signed in TEMPL:
     if cb >= 16:
         # as for 2x16/4x16: tied component-wise to the one-component function, whose quantisation is proved directly
         onefn = 'glm_pack%s1x16' % K
-        C('glm_pack' + F, '%s(vec<%d,float>) against glm::pack%s1x16  %s' % (pk, n, K, GTC), tier=th, timeout=600, uses=[onefn],
+        C('glm_pack' + F, '%s(vec<%d,float>) against glm::pack%s1x16  %s' % (pk, n, K, GTC), tier=th, timeout=600, uses=[onefn], requires=not_nan(n),
           ensures=[('comp%d_is_pack%s1x16' % (i, K), 'spec_isnan32(%s) || out[%d] == %s(%s)' % (XS[i], i, onefn, XS[i])) for i in range(n)])
     else:
-        C('glm_pack' + F, '%s(vec<%d,float>)  %s' % (pk, n, GTC), tier=th, ensures=ens, timeout=600)
+        C('glm_pack' + F, '%s(vec<%d,float>)  %s' % (pk, n, GTC), tier=th, requires=not_nan(n), ensures=ens, timeout=600)
     C('glm_unpack' + F, '%s(vec<%d,%s>)  %s' % (up, n, gt, GTC), tier=th, timeout=600,
       ensures=[('comp%d_is_code_over_%d' % (i, m), '%s_decodes(out[%d], %s, %du)' % (q, i, code(XS[i]), m)) for i in range(n)])
     C('glm_repack_' + F, '%s(%s(v))  %s' % (pk, up, GTC), tier=th, timeout=600,
